@@ -55,6 +55,7 @@ type Key struct {
 type Universe struct {
 	Name string
 	NFT  bool // conf.NFTablesMode != Disabled => overlap suppression in the IP-set member index
+	V6   bool // conf.Encapsulation.VXLANEnabledV6
 	Keys []Key
 	// Groups are generation hints only (never used to judge): sets of related keys (an object and the keys that
 	// decide whether it is active / what it contains) that the window-mode history generator toggles together.
@@ -157,6 +158,19 @@ func node(name, v4cidr, vxlanAddr string) *internalapi.Node {
 }
 
 func intp(i int) *int { return &i }
+
+// node46: a node with IPv4 and/or IPv6 BGP addresses (CIDR form)
+func node46(name, v4cidr, v6cidr string) *internalapi.Node {
+	n := &internalapi.Node{ObjectMeta: metav1.ObjectMeta{Name: name}}
+	if v4cidr != "" || v6cidr != "" {
+		n.Spec.BGP = &internalapi.NodeBGPSpec{IPv4Address: v4cidr, IPv6Address: v6cidr}
+	}
+	return n
+}
+
+func wep6(name string, labels uniquelabels.Map, v4 []string, v6 []string) *model.WorkloadEndpoint {
+	return &model.WorkloadEndpoint{State: "active", Name: name, IPv4Nets: nets(v4...), IPv6Nets: nets(v6...), Labels: labels}
+}
 
 // block builds an AllocationBlock with /29 CIDR; allocs maps ordinal -> owning node ("" = no attribute node)
 func block(cidr, affinityHost string, allocs map[int]string) *model.AllocationBlock {
@@ -478,6 +492,63 @@ func universeRoutes() *Universe {
 	return u
 }
 
+// IPv6 routes (C43 / C01): an IPv6 pool in cross-subnet / always / no-encap mode, IPv6 blocks with borrowed addresses, nodes with
+// IPv6 addresses in and out of the local node's IPv6 subnet, the local node's IPv6 subnet changing / arriving late / absent
+func universeRoutes6() *Universe {
+	u := &Universe{Name: "routes6", NFT: false, V6: true}
+	u.Keys = append(u.Keys,
+		Key{ID: "pool6", Kind: "pool", Key: poolKey("feed:beef::/64"), Variants: []Variant{
+			V("vxlancs", pool("feed:beef::/64", encap.Never, encap.CrossSubnet, false)),
+			V("vxlan", pool("feed:beef::/64", encap.Never, encap.Always, true)),
+			V("none", pool("feed:beef::/64", encap.Never, encap.Never, false)),
+		}},
+		Key{ID: "pool4", Kind: "pool", Key: poolKey("10.0.0.0/16"), Variants: []Variant{
+			V("vxlancs", pool("10.0.0.0/16", encap.Never, encap.CrossSubnet, false)),
+			V("ipipcs", pool("10.0.0.0/16", encap.CrossSubnet, encap.Never, true)),
+		}},
+		Key{ID: "blk6R1", Kind: "block", Key: blockKey("feed:beef::100/125"), Variants: []Variant{
+			V("a", block("feed:beef::100/125", remote1, nil)),
+			V("b", block("feed:beef::100/125", remote1, map[int]string{1: remote1, 2: remote2, 3: localHost})),
+			V("c", block("feed:beef::100/125", remote2, map[int]string{2: remote1})),
+		}},
+		Key{ID: "blk6L", Kind: "block", Key: blockKey("feed:beef::200/125"), Variants: []Variant{
+			V("a", block("feed:beef::200/125", localHost, nil)),
+			V("b", block("feed:beef::200/125", localHost, map[int]string{1: localHost, 2: remote1})),
+		}},
+		Key{ID: "blk4R1", Kind: "block", Key: blockKey("10.0.1.0/29"), Variants: []Variant{
+			V("a", block("10.0.1.0/29", remote1, nil)),
+			V("b", block("10.0.1.0/29", remote2, map[int]string{2: remote1})),
+		}},
+		Key{ID: "nodeL", Kind: "node", Key: model.ResourceKey{Kind: internalapi.KindNode, Name: localHost}, Variants: []Variant{
+			V("a", node46(localHost, "192.168.0.1/24", "fd00:1::1/64")),
+			V("b", node46(localHost, "192.168.0.1/24", "fd00:1::1/127")),
+			V("c", node46(localHost, "192.168.0.1/24", "fd00:2::1/64")),
+			V("d", node46(localHost, "192.168.0.1/24", "")),
+			V("e", node46(localHost, "", "fd00:1::1/64")),
+		}},
+		Key{ID: "nodeR1", Kind: "node", Key: model.ResourceKey{Kind: internalapi.KindNode, Name: remote1}, Variants: []Variant{
+			V("a", node46(remote1, "192.168.0.2/24", "fd00:1::2/64")),
+			V("b", node46(remote1, "172.16.0.2/24", "fd00:2::2/64")),
+			V("c", node46(remote1, "192.168.0.2/24", "")),
+		}},
+		Key{ID: "nodeR2", Kind: "node", Key: model.ResourceKey{Kind: internalapi.KindNode, Name: remote2}, Variants: []Variant{
+			V("a", node46(remote2, "192.168.0.3/24", "fd00:1::3/64")),
+			V("b", node46(remote2, "", "fd00:2::3/64")),
+		}},
+		Key{ID: "wepL1", Kind: "wep", Key: wepKey(localHost, "wl1"), Variants: []Variant{
+			V("a", wep6("cali1", lbl("role", "web"), []string{"10.0.0.1/32"}, []string{"feed:beef::201/128"})),
+			V("b", wep6("cali1", lbl("role", "web"), nil, []string{"feed:beef::103/128"})),
+			Bad("bad", wep6("", lbl("role", "web"), nil, []string{"feed:beef::201/128"})),
+		}},
+		Key{ID: "wepR1", Kind: "wep", Key: wepKey(remote1, "wl1"), Variants: []Variant{
+			V("a", wep6("cali3", lbl("role", "web"), nil, []string{"feed:beef::101/128"})),
+			V("b", wep6("cali3", lbl("role", "db"), []string{"10.0.1.1/32"}, []string{"feed:beef::102/128"})),
+		}},
+	)
+	u.Groups = [][]string{{"nodeL", "nodeR1", "pool6"}, {"blk6R1", "nodeL"}, {"pool6", "nodeL", "blk6R1"}, {"nodeR1", "nodeL"}, {"blk6R1", "nodeR1", "nodeR2"}, {"wepL1", "blk6R1", "blk6L"}, {"pool4", "nodeL", "blk4R1"}}
+	return u
+}
+
 // names where one is a prefix of the other: "then name" must order "allow-dns" before "allow-dns-egress" / "allow-dns.v2"
 func universeNames() *Universe {
 	u := &Universe{Name: "names", NFT: false}
@@ -514,7 +585,7 @@ func universeNames() *Universe {
 }
 
 func allUniverses() []*Universe {
-	return []*Universe{universePolicy(), universeOrder(), universeIPSets(false), universeIPSets(true), universeRoutes(), universeNames()}
+	return []*Universe{universePolicy(), universeOrder(), universeIPSets(false), universeIPSets(true), universeRoutes(), universeNames(), universeRoutes6()}
 }
 
 // ---- projection for TLC (pure syntax) ---------------------------------------------------------
@@ -707,6 +778,9 @@ func (e *exporter) variant(k *Key, v *Variant) map[string]any {
 		for _, n := range val.IPv4Nets {
 			ns = append(ns, octets(n))
 		}
+		for _, n := range val.IPv6Nets {
+			ns = append(ns, octets(n))
+		}
 		out["id"] = key.OrchestratorID + "/" + key.WorkloadID + "/" + key.EndpointID
 		out["host"] = key.Hostname
 		out["local"] = key.Hostname == localHost
@@ -835,6 +909,23 @@ func (e *exporter) variant(k *Key, v *Variant) map[string]any {
 			out["addr"] = addrOctets(*ipa)
 			out["addrs"] = ipa.String()
 			out["subnet"] = octets(*n)
+		}
+		out["hasV6"] = false
+		out["addr6"] = map[string]any{"a": []int{0, 0, 0, 0, 0, 0, 0, 0, 0, 0, 0, 0, 0, 0, 0, 0}, "n": 128}
+		out["subnet6"] = out["addr6"]
+		out["addrs6"] = ""
+		if _, ok := out["addrs"]; !ok {
+			out["addrs"] = ""
+		}
+		if val.Spec.BGP != nil && val.Spec.BGP.IPv6Address != "" {
+			ipa, n, err := cnet.ParseCIDROrIP(val.Spec.BGP.IPv6Address)
+			if err != nil {
+				panic(err)
+			}
+			out["hasV6"] = true
+			out["addr6"] = addrOctets(*ipa)
+			out["addrs6"] = ipa.String()
+			out["subnet6"] = octets(*n)
 		}
 		out["hasVxlan"] = val.Spec.IPv4VXLANTunnelAddr != ""
 		out["vxlanAddr"] = map[string]any{"a": []int{0, 0, 0, 0}, "n": 32}
